@@ -805,7 +805,7 @@ func main() {
 	}
 	items = append(items, item{prefix: nil, paths: allPaths, meths: mainReqMethods, cfgs: mainCfgIdx})             // empty table
 	items = append(items, item{prefix: nil, last: full, paths: allPaths, meths: mainReqMethods, cfgs: mainCfgIdx}) // one entry
-	for _, e1 := range full {                                                                                     // two entries, full alphabet
+	for _, e1 := range full {                                                                                      // two entries, full alphabet
 		items = append(items, item{prefix: []entry{e1}, last: full, paths: allPaths, meths: mainReqMethods, cfgs: mainCfgIdx})
 	}
 	if only := os.Getenv("VERIF_C01_ONLY"); only != "" { // developer aid: "side" = the side families, or one family name
